@@ -12,8 +12,8 @@
 (***************************************************************************)
 EXTENDS Naturals, Integers, Sequences, FiniteSets
 
-Min(a, b) == IF a < b THEN a ELSE b
-Max(a, b) == IF a > b THEN a ELSE b
+MinOf(a, b) == IF a < b THEN a ELSE b
+MaxOf(a, b) == IF a > b THEN a ELSE b
 
 SetMin(S) == CHOOSE x \in S : \A y \in S : x <= y
 SetMax(S) == CHOOSE x \in S : \A y \in S : x >= y
